@@ -342,7 +342,11 @@ def run_exchange(ctx, rng, fe, ops, script, jitter=False):
             def jclock():
                 acc[0] += rng.choice([0.0, 0.0, 0.0002, 0.0006])
                 return vtime.BASE + loop._vt + vtime.EPS + acc[0]
-            _time.time = jclock
+
+            def coarse():
+                # a wall clock that advances in steps of 1/64 s (the default timer resolution of a common desktop system)
+                return vtime.BASE + int(loop._vt * 64) / 64.0 + vtime.EPS
+            _time.time = coarse if jitter == 'coarse' else jclock
             return main(Sx)
         S = sc.run(coro_wrapper)
     else:
@@ -379,7 +383,7 @@ def run_exchange(ctx, rng, fe, ops, script, jitter=False):
         ctx.report(f'commands-not-one-at-a-time:{fe}', f'{fw.max_inflight} commands in flight at once', w)
     ts = [c.get('timestamp') for c in cmds if c.get('timestamp') is not None]
     if any(b <= a for a, b in zip(ts, ts[1:])):
-        ctx.report(f'command-timestamps-not-increasing:{fe}' + (':jitter-clock' if jitter else ''),
+        ctx.report(f'command-timestamps-not-increasing:{fe}' + (':coarse-clock' if jitter == 'coarse' else ':jitter-clock' if jitter else ''),
                    f'timestamps of consecutive commands are not strictly increasing: {ts}', w)
     # return values: the k-th issued command got script[k]; calls complete in command order per (verb,prefix)
     by_key = {}
@@ -646,7 +650,9 @@ def run(ctx):
             script = [REPLIES[(i // 2) % len(REPLIES)]]
         else:
             script = [rng.choice(REPLIES) for _ in range(k)]
-        run_exchange(ctx, rng, fe, ops, script, jitter=(i % 5 == 4))
+        run_exchange(ctx, rng, fe, ops, script, jitter=('coarse' if i % 10 == 9 else (i % 5 == 4)))
+        if i % 10 == 9:
+            ctx.event('exchange-under-a-coarse-clock')
     for fe in ('v2', 'v1'):
         for variant in range(ctx.n(12, 400)):
             check_routes(ctx, rng, fe, variant)
@@ -654,5 +660,6 @@ def run(ctx):
     for k in ['exchange-with-strict-application-validator', 'parse-response-with-unknown-elements', 'caller-edits-name-list-after-call', 'exchange', 'concurrent-exchange', 'route-connection', 'reconnect-within-one-millisecond', 'parse-response'] + [f'reply-{r}' for r in REPLIES]:
         ctx.need_event(k)
     ctx.need_event('exchange-beside-another-application-of-the-process')
+    ctx.need_event('exchange-under-a-coarse-clock')
     ctx.assumptions = ['a 200 reply whose signature is bad counts as success in the current front-end (its commands use pass_all) and as failure in the legacy one',
-                       'jitter clock: non-decreasing, 0..0.6 ms per reading (a legal wall clock)']
+                       'jitter clock: non-decreasing, 0..0.6 ms per reading (a legal wall clock); coarse clock: advances in steps of 1/64 s']
